@@ -178,6 +178,48 @@ func Run(c Case) error {
 		}
 	}
 
+	// 3b. The same two routes over readers that deliver the input in small
+	// pieces: acceptance must not depend on where a refill falls (a lexeme
+	// resumed after a refill is still the same lexeme).
+	if len(in) >= 2 {
+		h := cov.FP(in)
+		cs := 1
+		if h&1 == 1 {
+			cs = 2 + int((h>>1)%7)
+		}
+		{
+			for _, byTok := range []bool{false, true} {
+				d := jsontext.NewDecoder(&pieceReader{b: in, n: cs}, c.opts()...)
+				var n int
+				var ferr error
+				if p := rt.Guard(func() {
+					for n <= 2*len(in)+2 {
+						var err error
+						if byTok {
+							_, err = d.ReadToken()
+						} else {
+							_, err = d.ReadValue()
+						}
+						if err != nil {
+							ferr = err
+							return
+						}
+						n++
+					}
+				}); p != nil {
+					return fmt.Errorf("decoder over a %d-byte-per-read reader panicked: %v (input %q)", cs, p, in)
+				}
+				what := map[bool]string{false: "ReadValue", true: "ReadToken"}[byTok]
+				if (ferr == io.EOF) != (serr == nil) {
+					return fmt.Errorf("%s path over a reader delivering %d bytes per read ended with %v after %d items; reference stream verdict: %v; input %q utf8=%v dup=%v", what, cs, ferr, n, serr, in, c.UTF8, c.Dup)
+				}
+				if !byTok && n != len(nodes) {
+					return fmt.Errorf("ReadValue path over a reader delivering %d bytes per read returned %d values before %v; reference finds %d complete values in %q", cs, n, ferr, len(nodes), in)
+				}
+			}
+		}
+	}
+
 	// 4. Unmarshal into any
 	{
 		var v any
@@ -474,4 +516,20 @@ func selfTest(e *rt.Env) {
 	for _, msg := range refSelfTest() {
 		e.OracleFail(msg)
 	}
+}
+
+// pieceReader delivers its content n bytes per Read.
+type pieceReader struct {
+	b []byte
+	n int
+}
+
+func (r *pieceReader) Read(p []byte) (int, error) {
+	if len(r.b) == 0 {
+		return 0, io.EOF
+	}
+	k := min(r.n, len(p), len(r.b))
+	copy(p, r.b[:k])
+	r.b = r.b[k:]
+	return k, nil
 }
